@@ -42,6 +42,14 @@ func NewProcessor(gw *Gateway, tunnel *Tunnel) *Processor {
 const tunnelId = 10
 
 func (p *Processor) Process(ctx context.Context) error {
+	// whatever ends the packet loop ends the tunnel: release the connection to
+	// the remote desktop server (this also stops the forwarding goroutine)
+	defer func() {
+		if p.tunnel.rwc != nil {
+			p.tunnel.rwc.Close()
+		}
+	}()
+
 	for {
 		pt, sz, pkt, err := p.tunnel.Read()
 		if err != nil {
